@@ -216,15 +216,19 @@ def run(ctx):
             ondisk.close()
         # ---- a large model (more than 100 000 cells, three cells without geometry): every feature still records ITS cell
         ny_b, nx_b = 3, 33400
-        lat_b = numpy.arange(ny_b) * 0.25
-        lon_b = numpy.arange(nx_b) * 0.001953125
-        latb = numpy.stack([lat_b - 0.125, lat_b + 0.125], axis=-1)
-        lonb = numpy.stack([lon_b - 0.0009765625, lon_b + 0.0009765625], axis=-1)
-        big = xarray.Dataset({'lat_bnds': (('lat', 'bnds'), latb), 'lon_bnds': (('lon', 'bnds'), lonb)},
-                             coords={'lat': ('lat', lat_b, {'units': 'degrees_north', 'bounds': 'lat_bnds'}),
-                                     'lon': ('lon', lon_b, {'units': 'degrees_east', 'bounds': 'lon_bnds'})})
+        # the first two rows (66800 cells) have no coordinates: only the cells at positions 66800..100199 have polygons
+        lon2 = numpy.tile(numpy.arange(nx_b) * 0.001953125, (ny_b, 1))
+        lat2 = numpy.repeat(numpy.arange(ny_b)[:, None] * 0.25, nx_b, axis=1)
+        lonb = numpy.stack([lon2 - 0.0009765625, lon2 + 0.0009765625, lon2 + 0.0009765625, lon2 - 0.0009765625], axis=-1)
+        latb = numpy.stack([lat2 - 0.125, lat2 - 0.125, lat2 + 0.125, lat2 + 0.125], axis=-1)
+        lonb[:2] = numpy.nan
+        latb[:2] = numpy.nan
+        big = xarray.Dataset({'lon_bnds': (('y', 'x', 'nv'), lonb), 'lat_bnds': (('y', 'x', 'nv'), latb)},
+                             coords={'lat2': (('y', 'x'), lat2, {'units': 'degrees_north', 'bounds': 'lat_bnds'}),
+                                     'lon2': (('y', 'x'), lon2, {'units': 'degrees_east', 'bounds': 'lon_bnds'})})
+        n_wet = nx_b
         for fmt in (['geojson'] if quick else ['geojson', 'shapefile']):
-            case = {'dataset': f'cf1d {ny_b}x{nx_b} (100200 cells)', 'format': fmt}
+            case = {'dataset': f'cf2d {ny_b}x{nx_b} (100200 cells, the first 66800 without coordinates)', 'format': fmt}
             ctx.case(('big', fmt), True)
             ctx.count(f'large_dataset:{fmt}')
             path = os.path.join(tmp, 'big.' + {'geojson': 'geojson', 'shapefile': 'shp'}[fmt])
@@ -251,17 +255,18 @@ def run(ctx):
                 ctx.report('property', f'the exported {fmt} file of a large dataset cannot be read back: {type(e).__name__}', case)
                 continue
             badb = None
-            if len(recs) != ny_b * nx_b:
-                badb = f'{len(recs)} features for {ny_b * nx_b} cells'
+            if len(recs) != n_wet:
+                badb = f'{len(recs)} features for {n_wet} cells with polygons'
             else:
-                for k in list(range(0, ny_b * nx_b, 997)) + [99999, 100000, 100001, ny_b * nx_b - 1]:
-                    li, idx, first = recs[k]
+                for pos in list(range(0, n_wet, 397)) + [99999 - 2 * nx_b, 100000 - 2 * nx_b, 100001 - 2 * nx_b, n_wet - 1]:
+                    li, idx, first = recs[pos]
+                    k = 2 * nx_b + pos
                     j, i = divmod(k, nx_b)
                     if li != k or list(idx) != [j, i]:
-                        badb = f'feature {k} records linear index {li} and native index {idx}; the cell there is {k} = {[j, i]}'
+                        badb = f'feature {pos} records linear index {li} and native index {idx}; the cell there is {k} = {[j, i]}'
                         break
-                    if not (lonb[i, 0] <= first[0] <= lonb[i, 1] and latb[j, 0] <= first[1] <= latb[j, 1]):
-                        badb = f'feature {k}: first coordinate {first} is not a corner of cell {[j, i]}'
+                    if not (lonb[j, i, 0] <= first[0] <= lonb[j, i, 1] and latb[j, i, 0] <= first[1] <= latb[j, i, 2]):
+                        badb = f'feature {pos}: first coordinate {first} is not a corner of cell {[j, i]}'
                         break
             if badb:
                 ctx.report('property', badb, case)
